@@ -29,11 +29,16 @@ VARIABLES hist,       \* [Slots -> histogram record]
 vars == <<hist, ghost, last>>
 
 Tokens == {"ninf", "m1", "nz", "pz", "half", "one", "two", "pinf", "nan"}
-EdgeTokens == Tokens \ {"nan"}
+\* two more edge values, used only by the fixed edge vectors of the merge configurations: the
+\* floating-point successor of 1.0 and the smallest positive number -- edge vectors that differ
+\* from another one by a single ulp, or by less than any absolute epsilon, are still DIFFERENT
+NearTokens == {"one_up", "tiny"}
+EdgeTokens == (Tokens \ {"nan"}) \cup NearTokens
 
 \* numeric value of an edge token, on the sample lattice (20 * value)
 EdgeVal(t) == CASE t = "ninf" -> -1000 [] t = "m1" -> -20 [] t = "nz" -> 0 [] t = "pz" -> 0
                 [] t = "half" -> 10 [] t = "one" -> 20 [] t = "two" -> 40 [] t = "pinf" -> 1000
+                [] t = "one_up" -> 21 [] t = "tiny" -> 1
 
 NaNSample == 424242
 NegZeroSample == 424243
@@ -177,7 +182,7 @@ Checkpoint(s) == hist[s].built /\ UNCHANGED <<hist, ghost>> /\ last' = [op |-> "
 Cls(c) == [k |-> c]
 Val(r) == [k |-> "rat", v |-> r]
 IsInf(t) == t \in {"ninf", "pinf"}
-EdgeRat(t) == Norm(EdgeVal(t), 20)
+EdgeRat(t) == Norm(EdgeVal(t), 20)      \* (not meaningful for NearTokens: views are not exported for them)
 
 Width(a, b) ==            \* b - a for edges a <= b
     IF a = "ninf" /\ b = "ninf" THEN Cls("nan")
